@@ -502,6 +502,17 @@ func (v *Verifier) evalCall(env *Env, e *Expr) *Val {
 			r = a.Term
 		}
 		return intVal(Select(hs.ghostArr("wg", SInt), r))
+	case "wgtoken":
+		a := arg(0)
+		var r *Term
+		if env.X != nil {
+			r = env.X.refOf(a)
+		} else {
+			r = a.Term
+		}
+		return intVal(Select(hs.ghostArr("wgmine", SInt), r))
+	case "ncalls":
+		return intVal(hs.ghostInt("ncalls$" + args[0].Lit))
 	case "allocated":
 		return boolVal(Select(hs.ghostArr("alloc", SBool), arg(0).Term))
 	case "fresh":
@@ -572,6 +583,12 @@ func (v *Verifier) evalCall(env *Env, e *Expr) *Val {
 			unsupportedf("visited(): no live map iterator")
 		}
 		return boolVal(Select(env.St.heapGet(it.Visited, ArrSort(k.Term.Sort, SBool)), k.Term))
+	case "visitedcount":
+		if env.X == nil || env.St == nil || len(env.St.LiveIters) == 0 {
+			unsupportedf("visitedcount() outside a loop invariant")
+		}
+		it := env.St.LiveIters[len(env.St.LiveIters)-1]
+		return intVal(env.St.heapGet(it.Visited+"$n", SInt))
 	case "base":
 		return &Val{T: types.Typ[types.UnsafePointer], Term: arg(0).Fields[0].Term}
 	case "ref":
